@@ -45,7 +45,7 @@ def clamped_result(fname, lo_attr, hi_attr):
 def _(c):
     vt_types(c)
     c.arr("input", 2, [None, "self.D"])
-    c.req("inv_vt_order", "forall(self.D, lambda j: self.orig_lb[0][j] <= self.orig_ub[0][j])")
+    c.req("inv_vt_order", "forall(self.D, lambda j: self.orig_lb[0][j] <= self.orig_ub[0][j])", props=["C01", "C11"])
     c.mod()
     c.result = {"builder": clamped_result("InvT", "orig_lb", "orig_ub")}
     # C01/C11: outputs never leave the original hard box - for EVERY finite input, inside or outside the internal box
@@ -58,7 +58,7 @@ def _(c):
 def _(c):
     vt_types(c)
     c.arr("input", 2, [None, "self.D"])
-    c.req("inv_vt_order_t", "forall(self.D, lambda j: self.lb[0][j] <= self.ub[0][j])")
+    c.req("inv_vt_order_t", "forall(self.D, lambda j: self.lb[0][j] <= self.ub[0][j])", props=["C01", "C11"])
     c.mod()
     c.result = {"builder": clamped_result("FwdT", "lb", "ub")}
     c.ens("clamped", "forall(rows(result), self.D, lambda i, j: self.lb[0][j] <= result[i][j] and result[i][j] <= self.ub[0][j])",
